@@ -246,6 +246,21 @@ Proof.
   apply (proj1 (forallb_forall _ _) H2 kv Hin).
 Qed.
 
+Lemma has_key_app {X} k (l1 l2 : list (ustring * X)) :
+  has_key k (l1 ++ l2) = has_key k l1 || has_key k l2.
+Proof.
+  unfold has_key. induction l1 as [|[k' x] l1 IH]; simpl; [reflexivity|].
+  destruct (ustr_eqb k k'); [reflexivity | exact IH].
+Qed.
+
+Lemma has_key_flat_map {X Y} k (g : Y -> list (ustring * X)) (L : list Y) b :
+  In b L -> has_key k (g b) = true -> has_key k (flat_map g L) = true.
+Proof.
+  induction L as [|c L IH]; [intros []|]. simpl. rewrite has_key_app. intros [E|Hin] Hk.
+  - subst c. rewrite Hk. reflexivity.
+  - rewrite (IH Hin Hk). apply orb_true_r.
+Qed.
+
 (* ------------------------------------------------------------------ properties / wire names *)
 Lemma wire_names_cons q ps :
   wire_names (q :: ps) = match wire_name q with Some w => w :: wire_names ps | None => wire_names ps end.
@@ -386,9 +401,9 @@ Section Sound.
   Definition Pkids (Q : schema -> Prop) (s : schema) : Prop :=
     match s with
     | SBool _ => True
-    | SObj _ _ _ _ _ _ _ items _ _ _ _ props _ ap _ _ _ anyo oneo _ _ _ _ =>
+    | SObj _ _ _ _ _ _ _ items _ _ _ _ props _ ap _ _ allo anyo oneo _ _ _ _ =>
         Forall Q items /\ Forall (fun kv => Q (snd kv)) props /\ OForall Q ap
-        /\ OForall (Forall Q) anyo /\ OForall (Forall Q) oneo
+        /\ OForall (Forall Q) anyo /\ OForall (Forall Q) oneo /\ OForall (Forall Q) allo
     end.
 
   (* ---------------------------------------------------------------- type side *)
@@ -457,7 +472,8 @@ Section Sound.
     (forall l, v = JArr l -> valid_arr (vx n) ik items ai l = true) /\
     (forall kvs, v = JObj kvs -> valid_obj (vx n) props ap kvs = true) /\
     (forall bs, anyo = Some bs -> exists b, In b bs /\ vx n b v = true) /\
-    (forall bs, oneo = Some bs -> exists b, In b bs /\ vx n b v = true).
+    (forall bs, oneo = Some bs -> exists b, In b bs /\ vx n b v = true) /\
+    (forall L, allo = Some L -> forall b, In b L -> vx n b v = true).
   Proof.
     rewrite validx_SObj. cbv zeta. unfold combine_ref, here_v, valid_local.
     rewrite !andb_true_iff.
@@ -468,6 +484,7 @@ Section Sound.
     - intros kvs ->. exact Hobj.
     - intros bs ->. simpl in Hany. apply existsb_exists in Hany. exact Hany.
     - intros bs ->. simpl in Hone. apply count_true_1_ex in Hone. exact Hone.
+    - intros L -> b Hin. simpl in Hall. apply (proj1 (forallb_forall _ _) Hall b Hin).
   Qed.
 
   Lemma null_only_sound n b v : null_only b = true -> vx n b v = true -> v = JNull.
@@ -1073,6 +1090,76 @@ Section Sound.
         apply (HP true (TId t0) v Hin Hd (fun _ => Hne) Hb).
     Qed.
 
+    (* allOf of object schemas -> struct *)
+    Lemma allof_struct_sound nn ps deny L v :
+      Forall (fun b => Pcov cov n b /\ Pkids (Pcov cov n) b) L ->
+      allof_struct re_match native_ok T cov nn ps deny L = true ->
+      in_dom v = true -> (nn = true -> v <> JNull) ->
+      (forall b, In b L -> vx n b v = true) ->
+      exists f, de_struct_body T (de f) (dv f) ps deny v <> None.
+    Proof.
+      intros HL Hc Hd Hnn Hv.
+      unfold allof_struct in Hc. rewrite !andb_true_iff in Hc.
+      destruct Hc as [[[[[Hdeny Hflat] H2] Hne] Hb] H4].
+      apply negb_true_iff in Hdeny. subst deny.
+      (* every conjunct is a plain object schema *)
+      assert (HB : forall b, In b L ->
+                exists ty fmt enum cst nv sv ik items ai mni mxi uq props req ap mnp mxp dflt title,
+                  b = SObj ty fmt enum cst nv sv ik items ai mni mxi uq props req ap mnp mxp None None None None None dflt title
+                  /\ ty_is nn ty [TObject] = true
+                  /\ props_ok re_match native_ok T cov props (flat_map sch_required L) None ps = true).
+      { intros b Hin. apply (proj1 (forallb_forall _ _) Hb) in Hin.
+        destruct b as [b|ty fmt enum cst nv sv ik items ai mni mxi uq props req ap mnp mxp allo anyo oneo no ref dflt title];
+          [discriminate|].
+        destruct ref; [discriminate|]. destruct anyo; [discriminate|]. destruct oneo; [discriminate|].
+        destruct allo; [discriminate|]. destruct no; [discriminate|].
+        apply andb_true_iff in Hin. destruct Hin as [H1 H3].
+        do 19 eexists. split; [reflexivity|]. split; assumption. }
+      (* the instance is an object *)
+      assert (Hobj : exists kvs, v = JObj kvs).
+      { destruct L as [|b0 L']; [discriminate|].
+        destruct (HB b0 (or_introl eq_refl))
+          as (ty & fmt & enum & cst & nv & sv & ik & items & ai & mni & mxi & uq & props & req & ap & mnp & mxp & dflt & title & E & H1 & _).
+        assert (Hv0 := Hv b0 (or_introl eq_refl)). rewrite E in Hv0. apply vx_parts in Hv0.
+        destruct Hv0 as (Hty & _).
+        destruct (ty_is_sound _ _ _ _ _ H1 Hty Hnn) as [ity [[<-|[]] Hok]].
+        destruct v as [| | | | | |kvs]; try discriminate. exists kvs. reflexivity. }
+      destruct Hobj as [kvs ->].
+      destruct (struct_obj_sound (flat_map sch_props L) (flat_map sch_required L) None None ps false kvs) as [f Hf];
+        try assumption; try exact I; try (intros; reflexivity).
+      - apply Forall_forall. intros kv Hin. apply in_flat_map in Hin. destruct Hin as [b [Hin Hkv]].
+        destruct (proj1 (Forall_forall _ _) HL b Hin) as [_ HK].
+        destruct b as [b|ty fmt enum cst nv sv ik items ai mni mxi uq props req ap mnp mxp allo anyo oneo no ref dflt title];
+          [destruct Hkv|].
+        simpl in HK, Hkv. destruct HK as (_ & HKp & _). apply (proj1 (Forall_forall _ _) HKp kv Hkv).
+      - unfold props_ok. apply forallb_forall. intros kv Hin. apply in_flat_map in Hin.
+        destruct Hin as [b [Hin Hkv]].
+        destruct (HB b Hin)
+          as (ty & fmt & enum & cst & nv & sv & ik & items & ai & mni & mxi & uq & props & req & ap & mnp & mxp & dflt & title & E & _ & H3).
+        subst b. simpl in Hkv. unfold props_ok in H3. apply (proj1 (forallb_forall _ _) H3 kv Hkv).
+      - apply forallb_forall. intros p Hin. apply (proj1 (forallb_forall _ _) H4) in Hin.
+        destruct (wire_name p) as [w|]; [|reflexivity].
+        apply existsb_exists in Hin. destruct Hin as [b [Hin Hk]].
+        eapply has_key_flat_map; eassumption.
+      - destruct (flat_map_value T ps) as [[vt|]|]; try discriminate. reflexivity.
+      - intros k sk x Hin _ Hx. apply in_flat_map in Hin. destruct Hin as [b [Hin Hkv]].
+        destruct (HB b Hin)
+          as (ty & fmt & enum & cst & nv & sv & ik & items & ai & mni & mxi & uq & props & req & ap & mnp & mxp & dflt & title & E & _ & _).
+        assert (Hvb := Hv b Hin). subst b. simpl in Hkv. apply vx_parts in Hvb.
+        destruct Hvb as (_ & _ & _ & _ & _ & _ & _ & _ & Ho & _).
+        specialize (Ho kvs eq_refl). apply valid_obj_parts in Ho. destruct Ho as [Hp _].
+        eapply Hp; eassumption.
+      - intros a Ea. discriminate.
+      - intros k Hin _. apply in_flat_map in Hin. destruct Hin as [b [Hin Hk]].
+        destruct (HB b Hin)
+          as (ty & fmt & enum & cst & nv & sv & ik & items & ai & mni & mxi & uq & props & req & ap & mnp & mxp & dflt & title & E & _ & _).
+        assert (Hvb := Hv b Hin). subst b. simpl in Hk. apply vx_parts in Hvb.
+        destruct Hvb as (_ & _ & _ & _ & _ & _ & Hol & _).
+        unfold valid_obj_local in Hol. rewrite !andb_true_iff in Hol. destruct Hol as [[Hrq _] _].
+        apply (proj1 (forallb_forall _ _) Hrq k Hk).
+      - exists f. unfold de_struct_body. rewrite option_map_ok. exact Hf.
+    Qed.
+
     (* ---------------------------------------------------------------- the whole node *)
     (* an assumed pair met at a "$ref" is accepted (outer induction hypothesis) *)
     Hypothesis Href : forall r t v, mem_pair A r t = true -> in_dom v = true ->
@@ -1083,13 +1170,14 @@ Section Sound.
       Forall (Pcov cov n) items -> Forall (fun kv => Pcov cov n (snd kv)) props -> OForall (Pcov cov n) ap ->
       OForall (Forall (fun b => Pcov cov n b /\ Pkids (Pcov cov n) b)) anyo ->
       OForall (Forall (fun b => Pcov cov n b /\ Pkids (Pcov cov n) b)) oneo ->
+      OForall (Forall (fun b => Pcov cov n b /\ Pkids (Pcov cov n) b)) allo ->
       forall ft nn t v,
       go re_match native_ok T A cov ty fmt enum cst nv sv ik items mni mxi props req ap allo anyo oneo no ref ft nn t = true ->
       in_dom v = true -> (nn = true -> v <> JNull) ->
       vx n (SObj ty fmt enum cst nv sv ik items ai mni mxi uq props req ap mnp mxp allo anyo oneo no ref dflt title) v = true ->
       exists f, de f t v <> None.
     Proof.
-      intros Hitems Hprops Hap Hany Hone.
+      intros Hitems Hprops Hap Hany Hone Hallo.
       induction ft as [|ft IH]; intros nn t v Hc Hd Hnn Hv; [discriminate|].
       cbn [go] in Hc.
       destruct (get_det T t) as [d|] eqn:Ed; [|discriminate].
@@ -1108,11 +1196,17 @@ Section Sound.
         destruct (wrapper_of d) as [t'|] eqn:Ew.
         { destruct (IH nn t' v Hc Hd Hnn Hv) as [f Hf]. exists (S f). eapply wrapper_de; eassumption. }
         assert (Hparts := Hv). apply vx_parts in Hparts.
-        destruct Hparts as (_ & _ & _ & _ & _ & _ & _ & _ & _ & Hva & Hvo).
+        destruct Hparts as (_ & _ & _ & _ & _ & _ & _ & _ & _ & Hva & Hvo & Hvall).
         destruct anyo as [bs|]; [destruct oneo as [bs'|]; [discriminate|] | destruct oneo as [bs|]].
         + eapply union_sound; try eassumption. apply Hva. reflexivity.
         + eapply union_sound; try eassumption. apply Hvo. reflexivity.
-        + destruct allo; [discriminate|]. destruct no; [discriminate|].
+        + destruct allo as [L|].
+          { (* allOf of objects against a struct *)
+            destruct no; [discriminate|]. destruct d; try discriminate.
+            edestruct allof_struct_sound as [f Hf];
+              [exact Hallo | exact Hc | exact Hd | exact Hnn | apply Hvall; reflexivity |].
+            exists (S f). rewrite (de_at _ _ _ _ Ed). exact Hf. }
+          destruct no; [discriminate|].
           destruct (option_of d) as [t'|] eqn:Eo.
           * apply (option_de _ _ _ v Ed Eo). intros Hne. apply (IH true t' v Hc Hd (fun _ => Hne) Hv).
           * destruct (cenum_of d) as [[t' vs]|] eqn:Ece; [|eapply leaf_sound; eassumption].
@@ -1126,11 +1220,19 @@ Section Sound.
       Forall (Pcov cov n) items -> Forall (fun kv => Pcov cov n (snd kv)) props -> OForall (Pcov cov n) ap ->
       OForall (Forall (fun b => Pcov cov n b /\ Pkids (Pcov cov n) b)) anyo ->
       OForall (Forall (fun b => Pcov cov n b /\ Pkids (Pcov cov n) b)) oneo ->
+      OForall (Forall (fun b => Pcov cov n b /\ Pkids (Pcov cov n) b)) allo ->
       Pcov (fun _ => covers_obj re_match native_ok T A cov ty fmt enum cst nv sv ik items mni mxi props req ap allo anyo oneo no ref)
            n (SObj ty fmt enum cst nv sv ik items ai mni mxi uq props req ap mnp mxp allo anyo oneo no ref dflt title).
     Proof.
-      intros Hitems Hprops Hap Hany Hone nn tg v Hc Hd Hnn Hv.
-      destruct tg as [t|ps deny|ts]; cbv beta in Hc; unfold covers_obj in Hc.
+      intros Hitems Hprops Hap Hany Hone Hallo nn tg v Hc Hd Hnn Hv.
+      cbv beta in Hc. unfold covers_obj in Hc. apply orb_true_iff in Hc. destruct Hc as [Hc|Hc].
+      { (* single-conjunct allOf *)
+        destruct allo as [[|b [|b2 L]]|]; try discriminate. destruct ref; [discriminate|].
+        simpl in Hallo. inversion Hallo as [|? ? [HPb _] _]. subst.
+        apply (HPb nn tg v Hc Hd Hnn). apply vx_parts in Hv.
+        destruct Hv as (_ & _ & _ & _ & _ & _ & _ & _ & _ & _ & _ & Hvall).
+        apply (Hvall [b] eq_refl b). left. reflexivity. }
+      destruct tg as [t|ps deny|ts].
       - eapply (go_sound ty fmt enum cst nv sv ik items ai mni mxi uq props req ap mnp mxp allo anyo oneo no ref dflt title);
           eassumption.
       - destruct ref; [discriminate|]. destruct anyo; [discriminate|]. destruct oneo; [discriminate|].
@@ -1185,10 +1287,13 @@ Section Sound.
         assert (Hone' : OForall (Forall (Pcov cv n)) oneo).
         { destruct oneo as [l|]; simpl in *; [|exact I].
           revert Hone; apply Forall_impl; intros a [H _]; exact H. }
+        assert (Hallo' : OForall (Forall (Pcov cv n)) allo).
+        { destruct allo as [l|]; simpl in *; [|exact I].
+          revert Hallo; apply Forall_impl; intros a [H _]; exact H. }
         split.
         + intros nn tg v Hc.
           apply (node_sound cv n Href ty fmt enum cst nv sv ik items ai mni mxi uq props req ap mnp mxp
-                            allo anyo oneo no ref dflt title Hitems' Hprops' Hap' Hany Hone nn tg v).
+                            allo anyo oneo no ref dflt title Hitems' Hprops' Hap' Hany Hone Hallo nn tg v).
           exact Hc.
         + simpl. repeat split; assumption. }
     intros s. apply Hdeep.
